@@ -484,6 +484,7 @@ func (r *RIB) addEntryInternal(ni string, op *spb.AFTOperation, oks, fails *[]*O
 	if installStack[op.GetId()] {
 		return nil
 	}
+	verifGate("add.try", op.GetId())
 	niR, ok := r.NetworkInstanceRIB(ni)
 	if !ok || !niR.IsValid() {
 		return fmt.Errorf("invalid network instance, %s", ni)
@@ -613,6 +614,7 @@ func (r *RIB) addEntryInternal(ni string, op *spb.AFTOperation, oks, fails *[]*O
 			}
 		}
 
+		verifGate("add.counted", op.GetId())
 		// we may now have made some other pending entry be possible to install,
 		// so try them all out.
 		for _, e := range r.getPending() {
@@ -1338,6 +1340,7 @@ func (r *RIBHolder) AddIPv4(e *aftpb.Afts_Ipv4EntryKey, explicitReplace bool) (b
 		}
 	}
 
+	verifGate("add.checked", 0)
 	if _, err := r.doAddIPv4(e.GetPrefix(), nr); err != nil {
 		return false, nil, err
 	}
@@ -1351,6 +1354,7 @@ func (r *RIBHolder) AddIPv4(e *aftpb.Afts_Ipv4EntryKey, explicitReplace bool) (b
 		}
 	}
 
+	verifGate("add.installed", 0)
 	return true, orig, nil
 }
 
@@ -1418,12 +1422,14 @@ func (r *RIBHolder) DeleteIPv4(e *aftpb.Afts_Ipv4EntryKey) (bool, *aft.Afts_Ipv4
 		}
 	}
 
+	verifGate("del.checked", 0)
 	r.doDeleteIPv4(e.GetPrefix())
 
 	if r.postChangeHook != nil {
 		r.postChangeHook(constants.Delete, unixTS(), r.name, de)
 	}
 
+	verifGate("del.removed", 0)
 	return true, de, nil
 }
 
@@ -1496,6 +1502,7 @@ func (r *RIBHolder) AddIPv6(e *aftpb.Afts_Ipv6EntryKey, explicitReplace bool) (b
 		}
 	}
 
+	verifGate("add.checked", 0)
 	if _, err := r.doAddIPv6(e.GetPrefix(), nr); err != nil {
 		return false, nil, err
 	}
@@ -1506,6 +1513,7 @@ func (r *RIBHolder) AddIPv6(e *aftpb.Afts_Ipv6EntryKey, explicitReplace bool) (b
 		}
 	}
 
+	verifGate("add.installed", 0)
 	return true, orig, nil
 }
 
@@ -1565,12 +1573,14 @@ func (r *RIBHolder) DeleteIPv6(e *aftpb.Afts_Ipv6EntryKey) (bool, *aft.Afts_Ipv6
 		}
 	}
 
+	verifGate("del.checked", 0)
 	r.doDeleteIPv6(e.GetPrefix())
 
 	if r.postChangeHook != nil {
 		r.postChangeHook(constants.Delete, unixTS(), r.name, de)
 	}
 
+	verifGate("del.removed", 0)
 	return true, de, nil
 }
 
@@ -1654,6 +1664,7 @@ func (r *RIBHolder) AddMPLS(e *aftpb.Afts_LabelEntryKey, explicitReplace bool) (
 		}
 	}
 
+	verifGate("add.checked", 0)
 	if _, err := r.doAddMPLS(uint32(e.GetLabelUint64()), nr); err != nil {
 		return false, nil, err
 	}
@@ -1667,6 +1678,7 @@ func (r *RIBHolder) AddMPLS(e *aftpb.Afts_LabelEntryKey, explicitReplace bool) (
 		}
 	}
 
+	verifGate("add.installed", 0)
 	return true, orig, nil
 }
 
@@ -1751,12 +1763,14 @@ func (r *RIBHolder) DeleteMPLS(e *aftpb.Afts_LabelEntryKey) (bool, *aft.Afts_Lab
 		}
 	}
 
+	verifGate("del.checked", 0)
 	r.doDeleteMPLS(lbl)
 
 	if r.postChangeHook != nil {
 		r.postChangeHook(constants.Delete, unixTS(), r.name, de)
 	}
 
+	verifGate("del.removed", 0)
 	return true, de, nil
 }
 
@@ -1825,12 +1839,14 @@ func (r *RIBHolder) DeleteNextHopGroup(e *aftpb.Afts_NextHopGroupKey) (bool, *af
 		}
 	}
 
+	verifGate("del.checked", 0)
 	r.doDeleteNHG(e.GetId())
 
 	if r.postChangeHook != nil {
 		r.postChangeHook(constants.Delete, unixTS(), r.name, de)
 	}
 
+	verifGate("del.removed", 0)
 	return true, de, nil
 }
 
@@ -1895,12 +1911,14 @@ func (r *RIBHolder) DeleteNextHop(e *aftpb.Afts_NextHopKey) (bool, *aft.Afts_Nex
 			return false, nil, nil
 		}
 	}
+	verifGate("del.checked", 0)
 	r.doDeleteNH(e.GetIndex())
 
 	if r.postChangeHook != nil {
 		r.postChangeHook(constants.Delete, unixTS(), r.name, de)
 	}
 
+	verifGate("del.removed", 0)
 	return true, de, nil
 }
 
@@ -1988,6 +2006,7 @@ func (r *RIBHolder) AddNextHopGroup(e *aftpb.Afts_NextHopGroupKey, explicitRepla
 		}
 	}
 
+	verifGate("add.checked", 0)
 	if _, err := r.doAddNHG(e.GetId(), nr); err != nil {
 		return false, nil, err
 	}
@@ -1998,6 +2017,7 @@ func (r *RIBHolder) AddNextHopGroup(e *aftpb.Afts_NextHopGroupKey, explicitRepla
 		}
 	}
 
+	verifGate("add.installed", 0)
 	return true, orig, nil
 }
 
@@ -2101,6 +2121,7 @@ func (r *RIBHolder) AddNextHop(e *aftpb.Afts_NextHopKey, explicitReplace bool) (
 		}
 	}
 
+	verifGate("add.checked", 0)
 	if _, err := r.doAddNH(e.GetIndex(), nr); err != nil {
 		return false, nil, err
 	}
@@ -2111,6 +2132,7 @@ func (r *RIBHolder) AddNextHop(e *aftpb.Afts_NextHopKey, explicitReplace bool) (
 		}
 	}
 
+	verifGate("add.installed", 0)
 	return true, replaced, nil
 }
 
@@ -2523,6 +2545,7 @@ func (r *RIB) Flush(networkInstances []string) error {
 			log.Errorf("cannot find network instance RIB for %s", netInst)
 		}
 
+		verifGate("flush.ni", 0)
 		// We hold a long lock during the Flush operation since we need to ensure that
 		// no entries are added to it whilst we remove all entries. This also means
 		// that we use the locklessDeleteXXX functions below to avoid deadlocking.
@@ -2603,6 +2626,7 @@ func (r *RIB) Flush(networkInstances []string) error {
 
 	}
 
+	verifGate("flush.done", 0)
 	if len(errs) != 0 {
 		return &FlushErr{Errs: errs}
 	}
